@@ -140,9 +140,21 @@ fn kind_of(n: &TreeNode<'_, [u8], u8, u8>) -> u8 {
 }
 
 /// shift k leaves (1..=3), reduce the top m of them (0..=k) by production 7, then get_result.
+/// (k, m) enumerated concretely -- a symbolic split point made CBMC exceed the memory cap; spans and layouts symbolic.
 #[kani::proof]
 #[kani::unwind(6)]
 fn twin_tree_builder() {
+    let mut k = 1;
+    while k <= 3 {
+        let mut m = 0;
+        while m <= k {
+            tree_builder_case(k, m);
+            m += 1;
+        }
+        k += 1;
+    }
+}
+fn tree_builder_case(k: usize, m: usize) {
     let input: [u8; 4] = [1, 2, 3, 4];
     let layouts: [Option<&[u8]>; 3] = [
         if kani::any() { Some(&input[0..1]) } else { None },
@@ -151,25 +163,21 @@ fn twin_tree_builder() {
     ];
     let mut ctx: Ctx = LRContext::new(any_pos());
     let mut b: TB = TreeBuilder::new();
-    let k: usize = kani::any();
-    kani::assume(1 <= k && k <= 3);
     let mut i = 0;
     while i < k {
         ctx.set_layout_ahead(layouts[i]);
         LRBuilder::<[u8], Ctx, St, u8, u8>::shift_action(&mut b, &ctx, Token { kind: i as u8 + 1, value: &input[i..i + 1], span: any_span() });
         i += 1;
     }
-    let m: usize = kani::any();
-    kani::assume(m <= k);
     let sp = any_span();
     ctx.set_span(sp);
     ctx.set_layout_ahead(None);
     LRBuilder::<[u8], Ctx, St, u8, u8>::reduce_action(&mut b, &ctx, 7, m);
     // C02: get_result hands over the top of the result stack -- the node just built
     let top = b.get_result();
-    match top {
+    match &top {
         TreeNode::NonTermNode { prod, span, children, layout } => {
-            assert!(prod == 7 && span == sp);
+            assert!(*prod == 7 && *span == sp);
             assert!(children.len() == m);
             let mut j = 0;
             while j < m {
@@ -187,13 +195,15 @@ fn twin_tree_builder() {
     if k - m > 0 {
         let below = b.get_result();
         assert!(kind_of(&below) == (k - m) as u8);
-        match below {
+        match &below {
             TreeNode::TermNode { layout, .. } => assert!(layout.is_some() == layouts[k - m - 1].is_some()),
             _ => panic!("C02: a leaf was replaced"),
         }
+        std::mem::forget(below);
     }
-    kani::cover!(m == 0 && k == 3, "empty reduction above three leaves");
-    kani::cover!(m == 3, "reduce three");
+    // TreeNode is recursive (Vec<TreeNode>): its drop glue unrolled to the unwind bound cost CBMC > 50 GB.  Leak.
+    std::mem::forget(top);
+    std::mem::forget(b);
 }
 
 /// C14: SliceBuilder (layout parser) -- reduce_action stores input[span], get_result returns it.
@@ -219,4 +229,63 @@ fn twin_slice_builder() {
     if z > a {
         assert!(r[0] == input[a] && r[z - a - 1] == input[z - 1]);
     }
+}
+
+
+// ---------------------------------------------------------------------------------------------------------------
+/// C15: <str as Input>::slice never panics for the ranges Token's Debug impl uses (start < len, start <= end <= len),
+/// whatever the UTF-8 content -- in particular when `start` falls inside a multi-byte character (fix d32cbd9).
+/// bounded(N bytes of arbitrary valid UTF-8).
+fn str_slice_harness<const N: usize>() {
+    let buf: [u8; N] = kani::any();
+    let len: usize = kani::any();
+    kani::assume(len <= N);
+    let s = std::str::from_utf8(&buf[..len]);
+    kani::assume(s.is_ok());
+    let s = s.unwrap();
+    let a: usize = kani::any();
+    let z: usize = kani::any();
+    kani::assume(a < len && a <= z && z <= len);
+    let r = Input::slice(s, a..z);
+    // the result starts at the character that contains byte `a` and is a sub-slice of s
+    let mut floor = a;
+    while !s.is_char_boundary(floor) { floor -= 1; }
+    assert!(r.as_ptr() == s[floor..].as_ptr());
+    assert!(r.len() <= len - floor);
+    kani::cover!(floor < a, "start inside a multi-byte character");
+    kani::cover!(len == N && z == len, "up to the end");
+}
+#[kani::proof]
+#[kani::unwind(8)]
+fn str_slice_no_panic_4() {
+    str_slice_harness::<4>()
+}
+#[kani::proof]
+#[kani::unwind(10)]
+fn str_slice_no_panic_6() {
+    str_slice_harness::<6>()
+}
+
+/// C12: error_expected builds a ParseError located at the context's position (zero-width span), naming the file.
+/// bounded(1 or 2 expected kinds).  The message text is not checked.
+#[kani::proof]
+#[kani::unwind(6)]
+fn error_expected_shape() {
+    let input: [u8; 2] = kani::any();
+    let pos = any_pos();
+    let mut ctx: Ctx = LRContext::new(pos);
+    ctx.set_span(any_span());
+    let expected: [u8; 2] = kani::any();
+    let n: usize = kani::any();
+    kani::assume(n == 1 || n == 2);
+    let e = crate::error::error_expected(&input[..], "f", &ctx, &expected[..n]);
+    match &e {
+        crate::Error::ParseError(pe) => {
+            let sp = pe.span.unwrap();
+            assert!(sp.start == pos && sp.end == pos, "C12: error not located at the current position");
+            assert!(pe.file.is_some());
+        }
+        _ => panic!("C12: not a parse error"),
+    }
+    std::mem::forget(e);
 }
